@@ -1,6 +1,7 @@
 package constraint
 
 import (
+	"regexp"
 	"time"
 
 	jschema "github.com/jsightapi/jsight-schema-go-library"
@@ -36,10 +37,33 @@ func (DateTime) String() string {
 
 func (DateTime) Validate(value bytes.Bytes) {
 	str := value.Unquote().String()
-	_, err := time.Parse(time.RFC3339, str)
-	if err != nil {
+	if !isRFC3339DateTime(str) {
 		panic(errors.ErrInvalidDateTime)
 	}
+}
+
+// rfc3339DateTime is the "date-time" rule of RFC 3339, section 5.6, including the
+// ranges of the time fields (time-second can be 60, that is a leap second). "T" and
+// "Z" may alternatively be lower case "t" or "z". The month and the day of the month
+// are only checked to be two digits.
+var rfc3339DateTime = regexp.MustCompile(
+	`^[0-9]{4}-[0-9]{2}-[0-9]{2}` + // full-date
+		`[Tt]` +
+		`([01][0-9]|2[0-3]):[0-5][0-9]:([0-5][0-9]|60)(\.[0-9]+)?` + // partial-time
+		`([Zz]|[+-]([01][0-9]|2[0-3]):[0-5][0-9])$`, // time-offset
+)
+
+// isRFC3339DateTime reports whether s is a date-time as defined by RFC 3339.
+//
+// time.Parse(time.RFC3339, s) is not suitable for that: it admits strings which are
+// not in the grammar (a one-digit hour, a comma before the fraction of a second,
+// the offsets "+24:00" and "+23:60") and it doesn't admit a leap second.
+func isRFC3339DateTime(s string) bool {
+	if !rfc3339DateTime.MatchString(s) {
+		return false
+	}
+	_, err := time.Parse("2006-01-02", s[:len("2006-01-02")]) // checks the month and the day of the month
+	return err == nil
 }
 
 func (DateTime) ASTNode() jschema.RuleASTNode {
